@@ -118,7 +118,7 @@ def judge(case, wd, sh):
         if got != base:
             sh.violation('relation-add-queries', 'three unrelated queries added: records of the original queries differ: %s' % '; '.join(diff(base, got)), slim('add-queries'))
     # 7 each of three queries alone
-    for qid in list(case.get('special', [])) + rng.sample(qids, min(2, len(qids))):
+    for qid in list(case.get('special', [])) + rng.sample(qids, min(1, len(qids))):
         check('query-alone', run(case, wd, 'alone', queries=[list(m) for m in qm if m[0] == qid]), {k: v for k, v in base.items() if k[1] == qid},
               'query %s run alone' % qid)
     if len(sh.samples) < 1 and len(base) >= 3:
